@@ -194,6 +194,14 @@ func genScript(profile string, seed int64, idx int, tier string) SScript {
 		case 2:
 			s.Cfg.HeapLimit, s.Cfg.SysLimit = 1<<60, 1<<61
 		}
+		if profile == "c12" && rng.Intn(4) == 0 {
+			// a memory limit that IS exceeded (one byte): every cycle must evict, combined with the count limit where one is set
+			if rng.Intn(2) == 0 {
+				s.Cfg.HeapLimit = 1
+			} else {
+				s.Cfg.SysLimit = 1
+			}
+		}
 		if profile == "c11" && (s.Cfg.HeapLimit != 0 || s.Cfg.SysLimit != 0) {
 			s.Cfg.EF = Rat{1, 2, 0.5} // a wrongly detected breach must be visible even with a handful of entries
 		}
@@ -615,14 +623,21 @@ func (x *seqExec) runScript(id string, sc SScript, profile string) *seqFail {
 					longExpired0 := e.E != 0 && e.E < t0-dea
 					longExpired1 := e.E != 0 && e.E < t1-dea
 					if !kept && !longExpired1 {
-						return &seqFail{"monitor", "C11", "seq:cleanup-removed-live", fmt.Sprintf("op #%d cleanup removed key #%d whose expiry %d is not more than DeleteExpiredAfter (%dns) before the cycle [%d,%d] (0 = never expires); state before: %s", i, kid2, e.E, dea, t0, t1, before), i, nil}
+						return &seqFail{"monitor", "C11", "seq:cleanup-removed-live", fmt.Sprintf("op #%d cleanup removed key #%d whose expiry %d is not more than DeleteExpiredAfter (%dns) before the cycle [%d,%d] (0 = never expires); state before: %s", i, kid2, e.E, dea, t0, t1, before), i, []string{"C10"}} // (an entry within its ttl bounds, or one that never expires, is gone: C10)
 					}
 					if kept && scanOn && longExpired0 {
 						return &seqFail{"monitor", "C11", "seq:cleanup-kept-long-expired", fmt.Sprintf("op #%d cleanup kept key #%d although its expiry %d lies more than DeleteExpiredAfter (%dns) before the cycle [%d,%d]; state before: %s", i, kid2, e.E, dea, t0, t1, before), i, nil}
 					}
 				}
 			}
-			r := x.d.Ask(fmt.Sprintf("be cleanup %s %d %d ho=0 so=0 hn=1 needed=%d removed=%s evicted=%d", id, t0, t1, needed, rm, evicted))
+			ho, so := 0, 0
+			if cfg.HeapLimit == 1 {
+				ho = 1
+			}
+			if cfg.SysLimit == 1 {
+				so = 1
+			}
+			r := x.d.Ask(fmt.Sprintf("be cleanup %s %d %d ho=%d so=%d hn=1 needed=%d removed=%s evicted=%d", id, t0, t1, ho, so, needed, rm, evicted))
 			x.res.count("cleanup:" + strings.Fields(r)[0])
 			if r == "ambig" {
 				x.res.Ambiguous++
